@@ -12,6 +12,7 @@ import (
 	"flag"
 	"fmt"
 	"os"
+	"sort"
 	"strings"
 	"time"
 
@@ -89,7 +90,11 @@ type VEnvJ struct {
 	Generators    []string `json:"generators"`
 	NodeMHP       uint32   `json:"node_mhp"`
 	Contradicting bool     `json:"contradicting"`
-	AggOK         bool     `json:"agg_ok"`
+	MhPrecommit   uint32   `json:"mh_precommit"`
+	MhCert        uint32   `json:"mh_cert"`
+	NextParams    *uint32  `json:"next_params"`   // NextHeightBFTParameters(maxHeightCertified+1), nil if none
+	AggLookupOK   bool     `json:"agg_lookup_ok"` // header and BFT parameters exist at the commit's height
+	AggBlsOK      bool     `json:"agg_bls_ok"`    // weighted BLS aggregate verifies (computed with pkg/crypto directly)
 	SigOK         bool     `json:"sig_ok"`
 }
 type XEnvJ struct {
@@ -117,6 +122,9 @@ type ImplJ struct {
 	TipAfter string   `json:"tip_after"`
 	FinAfter uint32   `json:"fin_after"`
 	CSAfter  string   `json:"cs_after"`
+	AppAfter string   `json:"app_after"`
+	Commits  int      `json:"abi_commits"`
+	Reverts  int      `json:"abi_reverts"`
 }
 type Case struct {
 	K        string  `json:"k"` // "pv": Validate+processValidated or process on a ValidBlock-shaped block; "tb": tie-break scenario
@@ -127,6 +135,7 @@ type Case struct {
 	Tip      HeaderJ `json:"tip"`
 	Fin      uint32  `json:"fin"`
 	CS       string  `json:"cs"`
+	App      string  `json:"app"`
 	Block    BlockJ  `json:"block"`
 	TxRoot   string  `json:"pe_txroot"`
 	AssetRt  string  `json:"pe_assetroot"`
@@ -147,12 +156,14 @@ type step struct {
 }
 
 type world struct {
-	id   int
-	n    *exh.Node
-	hist []step
-	opt  exh.Options
-	r    *hx.Rng
-	out  *hx.Out
+	noAgg    bool // no aggregate commits while growing (keeps maxHeightCertified low for the boundary cases)
+	noChange bool // no random validator-set changes while growing
+	id       int
+	n        *exh.Node
+	hist     []step
+	opt      exh.Options
+	r        *hx.Rng
+	out      *hx.Out
 }
 
 func (w *world) rebuild() {
@@ -232,8 +243,41 @@ func envs(n *exh.Node, b *blockchain.Block, s *exh.Script) (VEnvJ, XEnvJ, string
 	for _, g := range gens {
 		ve.Generators = append(ve.Generators, hex.EncodeToString(g))
 	}
-	mhp, _, _ := n.Heights()
-	ve.NodeMHP = mhp
+	mhp, pre, cert := n.Heights()
+	ve.NodeMHP, ve.MhPrecommit, ve.MhCert = mhp, pre, cert
+	api := n.Exec.VerifC03LiskBFT().API()
+	if np, err := api.NextHeightBFTParameters(n.Exec.VerifC03ConsensusStore(), cert+1); err == nil {
+		ve.NextParams = &np
+	}
+	func() {
+		// the two external verdicts verifyAggregateCommit needs, computed without it
+		defer func() { recover() }()
+		agg := h.AggregateCommit
+		hd := n.HeaderAt(agg.Height)
+		params, err := api.GetBFTParameters(n.Exec.VerifC03ConsensusStore(), agg.Height)
+		if hd == nil || err != nil {
+			return
+		}
+		ve.AggLookupOK = true
+		type kw struct {
+			k []byte
+			w uint64
+		}
+		kws := []kw{}
+		for _, v := range params.Validators() {
+			kws = append(kws, kw{v.BLSKey(), v.BFTWeight()})
+		}
+		sort.Slice(kws, func(i, j int) bool { return bytes.Compare(kws[i].k, kws[j].k) < 0 })
+		keys, weights := [][]byte{}, []uint64{}
+		for _, x := range kws {
+			keys = append(keys, x.k)
+			weights = append(weights, x.w)
+		}
+		cert := certificate.NewCertificateFromBlock(hd)
+		cert.AggregationBits = agg.AggregationBits
+		cert.Signature = agg.CertificateSignature
+		ve.AggBlsOK = cert.VerifyAggregateCertificateSignature(keys, weights, params.CertificateThreshold(), n.Opt.ChainID)
+	}()
 	func() {
 		defer func() {
 			if recover() != nil {
@@ -242,14 +286,6 @@ func envs(n *exh.Node, b *blockchain.Block, s *exh.Script) (VEnvJ, XEnvJ, string
 		}()
 		c, err := n.Exec.VerifC03LiskBFT().API().IsHeaderContradictingChain(n.Exec.VerifC03ConsensusStore(), h.Readonly())
 		ve.Contradicting = c && err == nil
-	}()
-	func() {
-		defer func() {
-			if recover() != nil {
-				ve.AggOK = false
-			}
-		}()
-		ve.AggOK = n.Exec.VerifC03VerifyAggregateCommit(h.AggregateCommit) == nil
 	}()
 	if len(gens) > 0 {
 		slot := n.Slot(h.Timestamp)
@@ -329,13 +365,14 @@ func envs(n *exh.Node, b *blockchain.Block, s *exh.Script) (VEnvJ, XEnvJ, string
 	return ve, xe, txroot, assetroot
 }
 
-func (w *world) submit(alt string, b *blockchain.Block, s *exh.Script, resigned bool, forcePV bool) bool {
+func (w *world) submit(alt string, b *blockchain.Block, s *exh.Script, resigned bool, forcePV bool, keep ...bool) bool {
 	for attempt := 0; attempt < 3; attempt++ {
 		n := w.n
 		n.ABI.S = s
 		tip := n.Tip().Header
 		fin, _ := n.Finalized()
-		c := Case{K: "pv", World: w.id, Alt: alt, Resigned: resigned, Tip: hj(tip), Fin: fin, CS: csCode(n), Block: bj(b)}
+		c := Case{K: "pv", World: w.id, Alt: alt, Resigned: resigned, Tip: hj(tip), Fin: fin, CS: csCode(n), App: hex.EncodeToString(n.ABI.AppRoot), Block: bj(b)}
+		commits0, reverts0 := n.ABI.Commits, n.ABI.Reverts
 		c.VE, c.XE, c.TxRoot, c.AssetRt = envs(n, b, s)
 		before := n.Dump()
 		n.DrainEvents()
@@ -355,7 +392,8 @@ func (w *world) submit(alt string, b *blockchain.Block, s *exh.Script, resigned 
 		now2 := uint32(time.Now().Unix())
 		after := n.Dump()
 		c.Impl = ImplJ{Class: exh.ErrClass(r), DBSame: exh.Digest(before) == exh.Digest(after), Events: n.DrainEvents(),
-			TipAfter: hex.EncodeToString(n.Tip().Header.ID), CSAfter: csCode(n)}
+			TipAfter: hex.EncodeToString(n.Tip().Header.ID), CSAfter: csCode(n), AppAfter: hex.EncodeToString(n.ABI.AppRoot),
+			Commits: n.ABI.Commits - commits0, Reverts: n.ABI.Reverts - reverts0}
 		if r.Err != nil {
 			c.Impl.Err = r.Err.Error()
 		}
@@ -378,6 +416,11 @@ func (w *world) submit(alt string, b *blockchain.Block, s *exh.Script, resigned 
 			continue
 		}
 		w.out.Put(c)
+		if len(keep) > 0 && keep[0] && r.OK() {
+			w.hist = append(w.hist, step{b, s})
+			n.DrainEvents()
+			return true
+		}
 		if changed {
 			w.rebuild()
 		}
@@ -468,6 +511,46 @@ func (w *world) alterations(valid *blockchain.Block, script *exh.Script) {
 				b.Header.Init()
 			}
 			w.submit(m.name, b, cloneScript(script), resign, false)
+		}
+	}
+	// genuine aggregate commits on both sides of every bound of verifyAggregateCommit
+	{
+		_, pre, cert := n.Heights()
+		type cand struct {
+			label string
+			h     uint32
+		}
+		cands := []cand{{"the last certified height", cert}, {"last certified+1", cert + 1}, {"the precommitted height", pre}, {"precommitted+1", pre + 1}}
+		if np, err := n.Exec.VerifC03LiskBFT().API().NextHeightBFTParameters(n.Exec.VerifC03ConsensusStore(), cert+1); err == nil {
+			cands = append(cands, cand{"next BFT parameters-1", np - 1}, cand{"exactly the height of the next BFT parameters", np})
+		}
+		seen := map[uint32]bool{}
+		for _, c := range cands {
+			if seen[c.h] {
+				continue
+			}
+			seen[c.h] = true
+			var agg *blockchain.AggregateCommit
+			func() {
+				defer func() { recover() }()
+				agg = w.aggregateAt(c.h)
+			}()
+			if agg == nil {
+				continue
+			}
+			b := cloneBlock(valid)
+			b.Header.AggregateCommit = agg
+			w.n.Sign(b.Header, gen())
+			w.submit("aggregateCommit: genuine commit for "+c.label, b, cloneScript(script), true, false)
+		}
+	}
+	// a block that changes the BFT parameters must carry the NEW validatorsHash
+	if len(script.NextValidators) != 0 {
+		if p, err := n.Exec.GetBFTParameters(n.Exec.VerifC03ConsensusStore(), tip.Height+1); err == nil {
+			b := cloneBlock(valid)
+			b.Header.ValidatorsHash = append([]byte{}, p.ValidatorsHash()...)
+			w.n.Sign(b.Header, gen())
+			w.submit("validatorsHash of the parameters before the change", b, cloneScript(script), true, false)
 		}
 	}
 	// signature / signer
@@ -765,15 +848,10 @@ func (w *world) randomBuild(allowChange bool) (exh.Build, *exh.Script) {
 	return bo, s
 }
 
-// aggregate builds a non-empty aggregate commit for a precommitted, not yet certified height, signed by every validator
-// active at that height (nil if there is no such height).
-func (w *world) aggregate() *blockchain.AggregateCommit {
+// aggregateAt builds a genuine aggregate commit for height h, signed by every validator active at that height
+// (nil if the block or the parameters are not available).
+func (w *world) aggregateAt(h uint32) *blockchain.AggregateCommit {
 	n := w.n
-	_, pre, cert := n.Heights()
-	if pre <= cert {
-		return nil
-	}
-	h := cert + 1 + uint32(w.r.Intn(int(pre-cert)))
 	hd := n.HeaderAt(h)
 	if hd == nil {
 		return nil
@@ -799,29 +877,72 @@ func (w *world) aggregate() *blockchain.AggregateCommit {
 	return agg
 }
 
-func (w *world) grow(k int) {
+// aggregate: a genuine commit for a random precommitted, not yet certified height below the next parameter change.
+func (w *world) aggregate() *blockchain.AggregateCommit {
+	_, pre, cert := w.n.Heights()
+	hi := pre
+	if np, err := w.n.Exec.VerifC03LiskBFT().API().NextHeightBFTParameters(w.n.Exec.VerifC03ConsensusStore(), cert+1); err == nil && np-1 < hi {
+		hi = np - 1
+	}
+	if hi <= cert {
+		return nil
+	}
+	return w.aggregateAt(cert + 1 + uint32(w.r.Intn(int(hi-cert))))
+}
+
+// grow extends the chain by k valid successors; each of them is itself a recorded case (a valid block that the
+// implementation rejects is reported by the oracle, not by a harness failure). Returns false if one was rejected.
+func (w *world) grow(k int) bool {
 	for i := 0; i < k; i++ {
-		bo, s := w.randomBuild(true)
-		if w.r.Intn(5) == 0 {
+		bo, s := w.randomBuild(!w.noChange)
+		if !w.noAgg && w.r.Intn(5) == 0 {
 			func() {
 				defer func() { recover() }()
 				if a := w.aggregate(); a != nil {
-					w.n.ABI.S = s
 					bo.Agg = a
-					if w.n.Exec.VerifC03VerifyAggregateCommit(a) != nil {
-						bo.Agg = nil
-					}
 				}
 			}()
 		}
 		w.n.ABI.S = s
 		b := w.n.NextValid(bo)
-		if r := w.n.ProcessValidated(b, false); !r.OK() {
-			panic(fmt.Sprintf("world %d: valid successor rejected while growing: %v %s", w.id, r.Err, r.Panic))
+		if !w.submit("none (valid successor, history)", b, s, true, w.r.Bool(), true) {
+			return false
 		}
-		w.hist = append(w.hist, step{b, s})
 	}
 	w.n.DrainEvents()
+	return true
+}
+
+// changeValidators appends one valid block whose execution changes the validator set (one validator added).
+func (w *world) changeValidators() bool {
+	bo, s := w.randomBuild(false)
+	cur := w.n.GeneratorAddrs()
+	set := []*labi.Validator{}
+	for _, a := range cur {
+		set = append(set, w.n.ValidatorByAddr(a).Labi())
+	}
+	var nv *exh.Validator
+	for _, v := range w.n.Vals {
+		found := false
+		for _, a := range cur {
+			if bytes.Equal(a, v.Addr) {
+				found = true
+			}
+		}
+		if !found {
+			nv = v
+			break
+		}
+	}
+	if nv == nil {
+		nv = w.n.AddValidator()
+	}
+	set = append(set, nv.Labi())
+	s.NextValidators, s.PreCommitThreshold = set, uint64(len(set))*2/3+1
+	s.CertificateThreshold = s.PreCommitThreshold
+	w.n.ABI.S = s
+	b := w.n.NextValid(bo)
+	return w.submit("none (valid successor changing the validator set, history)", b, s, true, false, true)
 }
 
 // tieBreak drives Executer.process into the tie-break branch with an invalid competing block (bad signature): the tip is
@@ -880,6 +1001,8 @@ func (w *world) tieBreak(validNew bool) {
 	pb := bj(prevBlock)
 	ob := bj(T)
 	c.Tip, c.Fin, c.CS, c.Block, c.TxRoot, c.AssetRt, c.VE, c.XE = hj(T.Header), fin, csCode(n), bj(T2), txr, asr, ve2, xe2
+	c.App = hex.EncodeToString(n.ABI.AppRoot)
+	commits0, reverts0 := n.ABI.Commits, n.ABI.Reverts
 	c.Old, c.OldVE, c.OldXE, c.Prev, c.DelCS = &ob, &veT, &xeT, &pb, delCS
 	// the ABI double answers for T2 first, then for T when it is re-applied: both scripts have no failures, events differ
 	n.ABI.S = s2
@@ -891,7 +1014,8 @@ func (w *world) tieBreak(validNew bool) {
 	hook.disarm()
 	after := n.Dump()
 	c.Impl = ImplJ{Class: exh.ErrClass(r), DBSame: exh.Digest(before) == exh.Digest(after), Events: n.DrainEvents(),
-		TipAfter: hex.EncodeToString(n.Tip().Header.ID), CSAfter: csCode(n)}
+		TipAfter: hex.EncodeToString(n.Tip().Header.ID), CSAfter: csCode(n), AppAfter: hex.EncodeToString(n.ABI.AppRoot),
+		Commits: n.ABI.Commits - commits0, Reverts: n.ABI.Reverts - reverts0}
 	c.Impl.FinAfter, _ = n.Finalized()
 	if !c.Impl.DBSame {
 		c.Impl.DiffKeys = exh.DiffKeys(before, after)
@@ -944,6 +1068,11 @@ func main() {
 	}()
 	for wi := 0; wi < *worlds; wi++ {
 		opt := exh.Options{N: 2 + r.Intn(4)}
+		if wi%3 == 2 {
+			for i := 0; i < opt.N; i++ {
+				opt.Weights = append(opt.Weights, uint64(1+r.Intn(3))) // unequal BFT weights: finality advances in jumps
+			}
+		}
 		if r.Intn(3) == 0 {
 			opt.KeepEvents, opt.KeepEventsSet = r.Intn(3), true
 		}
@@ -952,12 +1081,35 @@ func main() {
 			panic(err)
 		}
 		w := &world{id: wi, n: n, opt: opt, r: r, out: o}
-		for p := 0; p < *points; p++ {
-			w.grow(r.Intn(9))
-			bo, s := w.randomBuild(p%2 == 1)
+		ok := true
+		if wi%3 == 1 {
+			// directed history for the aggregate-commit bounds: no certificate yet, a change of BFT parameters in the
+			// middle, finality well past it
+			w.noAgg, w.noChange = true, true
+			ok = w.grow(3+r.Intn(3)) && w.changeValidators() && w.grow(8+r.Intn(4))
+		}
+		for p := 0; ok && p < *points; p++ {
+			if !w.noAgg || p > 0 {
+				ok = w.grow(r.Intn(9))
+				if !ok {
+					break
+				}
+			}
+			bo, s := w.randomBuild(p%2 == 1 && !w.noChange)
 			if len(bo.Txs) < 2 && r.Bool() {
 				bo.Txs = []*blockchain.Transaction{exh.MakeTx(r.U64()%100000, 3), exh.MakeTx(r.U64()%100000, 30)}
-				s = w.randomScript(w.n.Tip().Header.Height+1, 2)
+				s2 := w.randomScript(w.n.Tip().Header.Height+1, 2)
+				s2.NextValidators, s2.PreCommitThreshold, s2.CertificateThreshold = s.NextValidators, s.PreCommitThreshold, s.CertificateThreshold
+				s = s2
+			}
+			if p == *points-1 && len(s.NextValidators) == 0 && !w.noChange && len(w.n.GeneratorAddrs()) > 2 {
+				// the last point of every world: a successor that changes the BFT parameters (one validator dropped)
+				cur := w.n.GeneratorAddrs()
+				for _, a := range cur[:len(cur)-1] {
+					s.NextValidators = append(s.NextValidators, w.n.ValidatorByAddr(a).Labi())
+				}
+				s.PreCommitThreshold = uint64(len(s.NextValidators))*2/3 + 1
+				s.CertificateThreshold = s.PreCommitThreshold
 			}
 			if len(s.BeforeEvents) == 0 {
 				s.BeforeEvents = []*blockchain.Event{exh.MakeEvent(r.U64(), w.n.Tip().Header.Height+1, 2)}
@@ -971,11 +1123,12 @@ func main() {
 			w.submit("none (valid successor)", cloneBlock(valid), cloneScript(s), true, true)
 			w.alterations(valid, s)
 			// finally extend the chain with it
-			w.n.ABI.S = s
-			if rr := w.n.Process(cloneBlock(valid)); rr.OK() {
-				w.hist = append(w.hist, step{valid, s})
+			if !w.submit("none (valid successor, history)", cloneBlock(valid), s, true, false, true) {
+				ok = false
 			}
-			w.n.DrainEvents()
+		}
+		if !ok {
+			continue
 		}
 		w.tieBreak(wi%3 == 2)
 	}
